@@ -470,6 +470,20 @@ def run(ctx):
                              rerun={"cmd": "random-async", "steps": ASYNC_RANDOM[tier], "seed": ctx.seed * 1000 + 777})
     ev_replay = ev_replay + ev_areplay + ev_arandom
 
+    # ---- 3c. deterministic targeted scenarios: every (transport x entry point x outcome) pair the coverage gates ask
+    # for, wide vectored refusals, multi-segment transfers through the crate's async File, the page geometries of
+    # C17 and every container entry point are produced on purpose, so that no gate depends on the seed
+    tf, taf = ctx.path("targeted.ndjson"), ctx.path("targeted_async.ndjson")
+    run_harness(ctx, bindir, ["targeted", tf], tf, {})
+    ev_t, vs_t = validate(ctx, tf, "targeted scenarios")
+    run_harness(ctx, bindir_async, ["targeted-async", taf], taf, {})
+    ev_ta, _ = validate(ctx, taf, "targeted scenarios (async entry points)")
+    ev_replay = ev_replay + ev_t + ev_ta
+    # the binding demonstration draws its targets from the targeted scenarios first (renumbered, so that their
+    # scenario ids cannot collide with those of the random run)
+    bad_t = {ev_t[i - 1].get("seg") for _, i, _ in vs_t if 0 < i <= len(ev_t)}
+    demo_src = [dict(e, seg=e["seg"] + 10 ** 6) for e in ev_t if e.get("seg") not in bad_t] + ev_random
+
     # ---- 4. coverage and binding
     stats = op_stats(ev_replay + ev_random)
     for kx, vx in ctx.extra.pop("_more_stats", {}).items():
@@ -488,7 +502,7 @@ def run(ctx):
                 return None
             raise
     guarded("coverage gate", lambda: coverage_gate(ctx, stats, ev_replay + ev_random))
-    demos = guarded("binding demo", lambda: binding_demo(ctx, ev_random, bad_random)) or []
+    demos = guarded("binding demo", lambda: binding_demo(ctx, demo_src, bad_random)) or []
 
     shapes = collections.Counter()
     for e in ev_replay + ev_random:
